@@ -79,6 +79,7 @@ void spend(int n) { while (n-- > 0) ; }
 void forever() { while (1) ; }
 void deep(int n) { if (n > 0) deep(n - 1); }
 void deep_forever() { deep_forever(); }
+void deep_load(int n, string f) { object o; if (n > 0) { deep_load(n - 1, f); return; } o = load_object(f); if (o) destruct(o); }
 
 void co_fire(string id, string script) {
   rec("CO " + me() + " " + id + " t=" + time());
@@ -229,6 +230,11 @@ void cop(string *a) {
   case "mk":      // mk <slot> <kind> <n>
     slots[a[1]] = mkval(a[2], to_int(a[3]), a[1]);
     break;
+  case "mkown":   // mkown <slot> <k>: the value is made by an object of a program nobody else uses; that object goes at once
+    o = load_object("/fown");
+    slots[a[1]] = o->mkf(to_int(a[2]));
+    destruct(o);
+    break;
   case "put":     // put <a> <b>: store the value of slot b inside the container in slot a
     x = slots[a[1]]; y = slots[a[2]];
     if (arrayp(x) && sizeof(x)) x[0] = y;
@@ -340,6 +346,7 @@ void cop(string *a) {
     break;
   case "dkids":   // destruct every clone of /vobj that is not one of the permanent w* helpers (also half-created ones)
     foreach (o in children("/vobj")) { string t; t = o->me(); if (o != find_object("/vobj") && (strlen(t) < 2 || t[0] != 'w' || t[1] < '0' || t[1] > '9')) destruct(o); }
+    o = find_object("/fown"); if (o) destruct(o);
     break;
   case "dslot":   // dslot <a>: destruct the object held in the slot
     if (objectp(slots[a[1]])) destruct(slots[a[1]]);
@@ -428,6 +435,10 @@ string nf_cb2(string script) { rec("NFCB2 " + me()); run(script); return "NFMSG2
 void eop(string *a) {
   mixed r; int n;
   switch (a[0]) {
+  case "dload":   // dload <file> <max>: load (compile) an object from every call depth up to and beyond the deepest possible one
+    for (n = 0; n < to_int(a[2]); n++) r = catch(deep_load(n, a[1]));
+    rec("DLOAD " + me());
+    break;
   case "itn":     // itn <it|gc>: input_to()/get_char() naming a function that does not exist (the efun raises an error)
     if (a[1] == "gc") r = catch(get_char("no_such_function_zz")); else r = catch(input_to("no_such_function_zz"));
     rec("ITN " + me() + " " + (r ? "err" : "ok"));
@@ -695,7 +706,7 @@ void do_op(string op) {
   case "filter": case "map": case "sort":
     eop(a);
     break;
-  case "exec": case "parse": case "snoop": case "nfs": case "nff": case "itn":
+  case "exec": case "parse": case "snoop": case "nfs": case "nff": case "itn": case "dload":
     eop(a);
     break;
   case "spread2": // spread2 <script>: f(args..., g(script)) - the script runs between the expansion and the call
@@ -816,7 +827,7 @@ void do_op(string op) {
   case "wclone": case "wload": case "whold": case "wdump": case "walk": case "lname": case "wmove": case "wmoves": case "wdest": case "wvo":
     wop(a);
     break;
-  case "mk": case "put": case "cyc": case "uncyc": case "share": case "cov": case "covf": case "itv": case "itve": case "drop": case "clearall": case "rb": case "many": case "use": case "memstat": case "rcall": case "dslot": case "dkids": case "pinfo": case "pdump":
+  case "mk": case "mkown": case "put": case "cyc": case "uncyc": case "share": case "cov": case "covf": case "itv": case "itve": case "drop": case "clearall": case "rb": case "many": case "use": case "memstat": case "rcall": case "dslot": case "dkids": case "pinfo": case "pdump":
     cop(a);
     break;
   case "xco": case "xaco": case "xsco": case "xsaco": case "xreload": case "comp": case "coinfo": case "reload":
